@@ -8,8 +8,10 @@ import (
 	"fmt"
 	"hash/fnv"
 	"os"
+	"runtime"
 	"sort"
 	"strings"
+	"sync"
 	"testing"
 	"testing/synctest"
 	"time"
@@ -135,7 +137,11 @@ type Result struct {
 	Trace      []string         `json:"-"`
 }
 
+var statMu sync.Mutex
+
 func (r *Result) stat(k string, n int64) {
+	statMu.Lock()
+	defer statMu.Unlock()
 	if r.Stats == nil {
 		r.Stats = map[string]int64{}
 	}
@@ -173,8 +179,17 @@ func inBubble(t *testing.T, f func()) (infra string) {
 			infra = "bubble panic: " + msg
 		}
 	}()
-	synctest.Test(t, func(t *testing.T) { f() })
-	return ""
+	synctest.Test(t, func(t *testing.T) {
+		defer func() {
+			if r := recover(); r != nil {
+				buf := make([]byte, 4096)
+				buf = buf[:runtime.Stack(buf, false)]
+				infra = fmt.Sprintf("harness panic: %v\n%s", r, buf)
+			}
+		}()
+		f()
+	})
+	return infra
 }
 
 // scratchRoot is where run directories live (ext4, outside /repo and /verif).
